@@ -89,6 +89,11 @@ type vfdNet struct {
 	trace   []string       // abridged delivery trace (kind src>dst)
 	sha     []byte         // running hash of the delivery order
 	gossips []*pdkg.GossipPacket
+	keepBundles bool
+	dropFrom    map[string]string // sender address -> bundle kind that is lost on its way out ("" = none)
+	lagStop     chan struct{}
+	maxLagNs    atomic.Int64 // worst lateness of a 5 ms timer since the last reset: is this box keeping time?
+	bundles     []*pdkg.DKGPacket // first bundles seen on the bus (only when keepBundles)
 	dropBundles bool // every DKG bundle is lost (failed execution)
 
 	inflight   atomic.Int64
@@ -163,6 +168,34 @@ func vfdNewNet(baseDir, beaconID string, sch *crypto.Scheme, cfg Config, seed ui
 	return &vfdNet{beaconID: beaconID, sch: sch, cfg: cfg, baseDir: baseDir, lg: vfdLogger(),
 		nodes: map[string]*vfdNode{}, rng: vfNewRng(seed ^ 0x6e6574), pending: map[string]int{}}
 }
+
+// startLagMonitor: the DKG is a synchronous protocol driven by wall-clock timers; when the box is so loaded that a
+// 5 ms sleep comes back hundreds of ms late, kick-off times and phase ends are not kept by the nodes either and a
+// failed execution says nothing about the code. Verdicts that depend on an execution succeeding consult lag().
+func (n *vfdNet) startLagMonitor() {
+	n.lagStop = make(chan struct{})
+	go func() {
+		for {
+			select {
+			case <-n.lagStop:
+				return
+			default:
+			}
+			t0 := time.Now()
+			time.Sleep(5 * time.Millisecond)
+			late := time.Since(t0).Nanoseconds() - int64(5*time.Millisecond)
+			for {
+				old := n.maxLagNs.Load()
+				if late <= old || n.maxLagNs.CompareAndSwap(old, late) {
+					break
+				}
+			}
+		}
+	}()
+}
+
+func (n *vfdNet) lag() time.Duration { return time.Duration(n.maxLagNs.Load()) }
+func (n *vfdNet) resetLag()          { n.maxLagNs.Store(0) }
 
 func (n *vfdNet) setSched(s vfdSched) {
 	n.mu.Lock()
@@ -313,6 +346,10 @@ func (n *vfdNet) closeAll() []string {
 	n.mu.Lock()
 	nodes := append([]*vfdNode(nil), n.order...)
 	n.mu.Unlock()
+	if n.lagStop != nil {
+		close(n.lagStop)
+		n.lagStop = nil
+	}
 	var blocked []string
 	for _, nd := range nodes {
 		if !nd.close() {
@@ -453,7 +490,10 @@ func (c *vfdClient) BroadcastDKG(_ context.Context, p net.Peer, in *pdkg.DKGPack
 	n.mu.Lock()
 	s := n.sched
 	dest := n.nodes[dst]
-	drop := n.dropBundles
+	drop := n.dropBundles || (n.dropFrom != nil && n.dropFrom[c.from] == kind)
+	if n.keepBundles && len(n.bundles) < 64 {
+		n.bundles = append(n.bundles, proto.Clone(in).(*pdkg.DKGPacket))
+	}
 	delay := 0
 	if s.BundleDelayMs > 0 {
 		delay = n.rng.Intn(s.BundleDelayMs + 1)
